@@ -259,8 +259,24 @@ def _gen(rng, tier):
 HIST_OPS = {}
 
 
+WIDEBAD = [(64, 64, 127), (64, 64, 65), (64, 64, 129), (64, 64, 64), (100, 100, 193), (100, 100, 256), (65, 63, 127),
+           (1, 1, 1), (8, 8, 15), (8, 8, 64)]
+
+
+def widebad_cases(rng):
+    """widening_mul into a caller-chosen result type of the wrong width (same limb count as the right one, one limb more,
+    one limb less): small products (a value would fit), products above the chosen width, boundary operands"""
+    for b1, b2, br in WIDEBAD:
+        m1, m2 = (1 << b1) - 1, (1 << b2) - 1
+        for a, b in ((1 & m1, 1 & m2), (m1, m2), (m1, 1 & m2), (3 & m1, 5 & m2), (value(rng, b1), value(rng, b2)),
+                     (value(rng, b1), value(rng, b2)), (1 << (b1 - 1) if b1 else 0, 2 & m2)):
+            yield 'widebad %d %d %d %x %x' % (b1, b2, br, a, b)
+
+
 def gen(rng, tier):
     HIST_OPS.clear()
+    for c in widebad_cases(rng):
+        yield c
     for c in _gen(rng, tier):
         if c.startswith('hist '):
             for t in c.split(' ')[3:]:
